@@ -16,7 +16,6 @@ truthy_of = z3.Function('truthy_of', Obj, z3.BoolSort())
 
 class V:
   """Base class of symbolic values."""
-  __slots__ = ()
 
 
 class VInt(V):
@@ -96,8 +95,7 @@ class VTuple(V):
 
 
 class VList(V):
-  """Mutable list of concrete length."""
-  __slots__ = ('items',)
+  """Mutable list of concrete length (no __slots__: may be promoted in place to VMList)."""
 
   def __init__(self, items):
     self.items = list(items)
@@ -119,7 +117,6 @@ class VSeq(V):
 
 class VMList(V):
   """Mutable list / deque of symbolic length (a cell holding a VSeq)."""
-  __slots__ = ('seq', 'is_deque')
 
   def __init__(self, seq, is_deque=False):
     self.seq = seq
@@ -259,7 +256,7 @@ class VMap(V):
 
 
 class VLock(V):
-  __slots__ = ('name', 'held', 'events', 'reentrant', 'cond')
+  __slots__ = ('name', 'held', 'events', 'reentrant', 'cond', 'f_notify', 'f_notify_all')
 
   def __init__(self, name, reentrant=False, cond=False):
     self.name = name
@@ -267,6 +264,8 @@ class VLock(V):
     self.events = []       # ('acquire'|'release'|'notify'|'notify_all'|'wait')
     self.reentrant = reentrant
     self.cond = cond
+    self.f_notify = z3.BoolVal(False)       # ghost: some waiter was notified during the operation
+    self.f_notify_all = z3.BoolVal(False)   # ghost: all waiters were notified
 
   def __repr__(self):
     return f'VLock({self.name}, held={self.held})'
@@ -277,3 +276,11 @@ class VSuper(V):
 
   def __init__(self, obj, cls_node):
     self.obj, self.cls_node = obj, cls_node
+
+
+class VQueue(V):
+  """queue.Queue / SimpleQueue model (A2): FIFO content + capacity (0 = unbounded)."""
+  __slots__ = ('q', 'cap', 'name')
+
+  def __init__(self, q, cap, name='queue'):
+    self.q, self.cap, self.name = q, cap, name
